@@ -8,7 +8,7 @@ from datetime import date, timedelta
 from typing import Any, Dict, List, Optional, Tuple
 
 from rpv.checks.inproc_util import candidate_days, clean_cut
-from rpv.cli_core import cli_histories, cli_profile, method_choice
+from rpv.cli_core import cli_histories, cli_profile, generator_crash, method_choice
 from rpv.drive_cli import COUNTRY_LANGUAGES, Workspace
 from rpv.expected import Expected
 from rpv.gen import assign_rows, parse_ts
@@ -25,6 +25,7 @@ def make_case(rng: random.Random, hostile_rows: bool = False) -> Dict[str, Any]:
         tie_prob=rng.choice((0.0, 0.15)),
         p_earn=rng.choice((0.3, 0.5)),
         shuffle_rows=True,
+        mixed_tz=rng.random() < 0.35,
     )
     hists = cli_histories(rng, n_assets, profile)
     country = rng.choice(("us", "us", "generic", "es", "ie", "jp"))
@@ -78,6 +79,10 @@ def run_case(ctx: Any, expected: Expected, case: Dict[str, Any], name: str, what
         ctx.count("executions")
         ctx.count("cli_runs")
         if res.exit != 0:
+            crash = generator_crash(res.stderr, "rp2_full_report.py")
+            if crash:
+                ctx.violation("fullreport.generator-crashed", {"error": crash}, case)
+                return None
             ctx.count("unobservable")
             ctx.tag("tag_unobservable", f"cli exit {res.exit}: {res.stderr.strip().splitlines()[-1][:140] if res.stderr.strip() else ''}")
             return None
